@@ -249,6 +249,19 @@ def build(model, db):
             n2 = Opt(E31)
         N2 = type(db.Entity)(E31, (db.Entity,), {'code': PK(int, auto=False), 'n1s': Set('N1')})
         return None
+    if model == 'unique_key_parts':
+        # a component of a composite primary key that is ALSO unique on its own, and that takes part in another composite key
+        class Grp(db.Entity):
+            students = Set('Stu')
+        class Stu(db.Entity):
+            grp = Req(Grp); serial = Req(int, unique=True); PK(grp, serial)
+            code = Req(str); orm.composite_key(serial, code)
+            nick = Opt(str, unique=True)
+        class Lone(db.Entity):
+            code = PK(str)
+            alias = Req(str, unique=True)
+        return dict(tables={'Grp': dict(id=(1, 1)), 'Stu': dict(grp=(1, 1), serial=(1, 2), code=(1, 0), nick=(0, 0)), 'Lone': dict(code=(1, 1), alias=(1, 0))},
+                    unique={'Stu': [('serial',), ('serial', 'code'), ('nick',)], 'Lone': [('alias',)]}, indexes={}, fks={'Stu': [(('grp',), 'Grp')]})
     if model == 'reference_cycles':
         # foreign keys in both directions between two tables (one of them composite), in both alphabetical orders: whichever table is created first, the key that
         # points at the later one can only be added afterwards
@@ -273,8 +286,8 @@ def build(model, db):
     raise KeyError(model)
 
 
-SQLITE_MODELS = ['attributes', 'relationships', 'inheritance', 'custom_names', 'long_names_distinct', 'long_entity_names']
-DDL_MODELS = ['attributes', 'relationships', 'inheritance', 'custom_names', 'long_names', 'long_names_distinct', 'qualified', 'explicit_pk_no_sequences', 'long_entity_names', 'reference_cycles']
+SQLITE_MODELS = ['attributes', 'relationships', 'inheritance', 'custom_names', 'long_names_distinct', 'long_entity_names', 'unique_key_parts']
+DDL_MODELS = ['attributes', 'relationships', 'inheritance', 'custom_names', 'long_names', 'long_names_distinct', 'qualified', 'explicit_pk_no_sequences', 'long_entity_names', 'reference_cycles', 'unique_key_parts']
 MAY_REJECT = ('long_names', 'long_names_distinct')          # names that collide after truncation to the dialect limit: refusing the mapping is the stated behaviour
 
 
